@@ -65,12 +65,107 @@ LEMMAS = [
 }"""),
 ]
 
+FLOAT_SPEC = r"""
+// the text HumanFloatCount must print for a fixed-precision rendering with sign `neg`, integer
+// digits `ip` and fraction digits `fp` (from the statement: standard decimal, trailing zeros
+// trimmed, a comma after every third integer digit)
+spec fn human_float(neg: bool, ip: Seq<char>, fp: Seq<char>) -> Seq<char> {
+    (if neg { seq!['-'] } else { Seq::<char>::empty() }) + group3_digits(ip)
+        + (if trim0(fp).len() > 0 { seq!['.'] + trim0(fp) } else { Seq::<char>::empty() })
+}
+spec fn prec_of(p: Option<usize>) -> nat { if p.is_some() { p.unwrap() as nat } else { 4 } }   // default precision 4
+// NaN / inf carry no digits to group
+spec fn group3_digits(ip: Seq<char>) -> Seq<char> { if all_digits(ip) { group3(ip) } else { ip } }
+"""
+
+FLOAT_LEMMAS = [
+    Lemma("lemma_int_part", "(t: Seq<char>, p: nat, neg: bool, ip: Seq<char>, fp: Seq<char>, a: Seq<char>, b: Seq<char>)",
+          requires=[("shape", "fixed_shape(t, p, neg, ip, fp)"),
+                    ("split", "(t == a + seq!['.'] + b && no_dot(a)) || (no_dot(t) && a == t && b.len() == 0)")],
+          ensures=[("int", "a == (if neg { seq!['-'] } else { Seq::<char>::empty() }) + ip"), ("frac", "b == fp")],
+          body=r"""{
+    let sg = if neg { seq!['-'] } else { Seq::<char>::empty() };
+    let pre = sg + ip;
+    assert(forall|k: int| 0 <= k < ip.len() ==> ip[k] != '.');
+    assert(no_dot(pre));
+    if fp.len() > 0 {
+        assert(t[pre.len() as int] == '.');
+        if no_dot(t) && a == t { assert(false); }
+        // both a and pre end right before the first '.'
+        if a.len() < pre.len() { assert(t[a.len() as int] == '.'); assert(t[a.len() as int] == pre[a.len() as int]); }
+        if pre.len() < a.len() { assert(t[pre.len() as int] == a[pre.len() as int]); }
+        assert(a.len() == pre.len());
+        assert forall|k: int| 0 <= k < a.len() implies a[k] == pre[k] by { assert(t[k] == a[k]); assert(t[k] == pre[k]); }
+        assert(a =~= pre);
+        assert(t.len() == a.len() + 1 + b.len());
+        assert(t.len() == pre.len() + 1 + fp.len());
+        assert(b.len() == fp.len());
+        assert forall|k: int| 0 <= k < b.len() implies b[k] == fp[k] by { assert(t[a.len() + 1 + k] == b[k]); assert(t[pre.len() + 1 + k] == fp[k]); }
+        assert(b =~= fp);
+    } else {
+        assert(t =~= pre);
+        if t == a + seq!['.'] + b && no_dot(a) { assert(t[a.len() as int] == '.'); assert(false); }
+        assert(b =~= fp);
+    }
+}"""),
+    Lemma("lemma_ascii_ip", "(ip: Seq<char>)",
+          requires=[("ip", "all_digits(ip) || ip == str_nan() || ip == str_inf()")],
+          ensures=[("ascii", "all_ascii(ip)"), ("grouping", "group3_digits(ip) == group3(ip)")],
+          body="{ if !all_digits(ip) { assert(ip.len() == 3); } }"),
+    Lemma("lemma_shape_unique", "(t: Seq<char>, p: nat, n1: bool, i1: Seq<char>, f1: Seq<char>, n2: bool, i2: Seq<char>, f2: Seq<char>)",
+          requires=[("a", "fixed_shape(t, p, n1, i1, f1)"), ("b", "fixed_shape(t, p, n2, i2, f2)")],
+          ensures=[("unique", "n1 == n2 && i1 == i2 && f1 == f2")],
+          body=r"""{
+    // the sign is decided by the first character; the integer part ends at the first '.' (or at the end)
+    let s1 = if n1 { seq!['-'] } else { Seq::<char>::empty() };
+    let s2 = if n2 { seq!['-'] } else { Seq::<char>::empty() };
+    assert(i1[0] != '-' && i2[0] != '-');
+    assert(t[0] == (if n1 { '-' } else { i1[0] }));
+    assert(t[0] == (if n2 { '-' } else { i2[0] }));
+    assert(n1 == n2);
+    let off = s1.len() as int;
+    assert forall|k: int| 0 <= k < i1.len() implies t[off + k] == i1[k] by {}
+    assert forall|k: int| 0 <= k < i2.len() implies t[off + k] == i2[k] by {}
+    assert(forall|k: int| 0 <= k < i1.len() ==> i1[k] != '.');
+    assert(forall|k: int| 0 <= k < i2.len() ==> i2[k] != '.');
+    if i1.len() < i2.len() {
+        if f1.len() > 0 { assert(t[off + i1.len()] == '.'); assert(t[off + i1.len()] == i2[i1.len() as int]); }
+        else { assert(t.len() == off + i1.len()); assert(t.len() >= off + i2.len()); }
+    }
+    if i2.len() < i1.len() {
+        if f2.len() > 0 { assert(t[off + i2.len()] == '.'); assert(t[off + i2.len()] == i1[i2.len() as int]); }
+        else { assert(t.len() == off + i2.len()); assert(t.len() >= off + i1.len()); }
+    }
+    assert(i1.len() == i2.len());
+    assert(i1 =~= i2);
+    assert(f1.len() == f2.len());
+    assert forall|k: int| 0 <= k < f1.len() implies f1[k] == f2[k] by {
+        assert(t[off + i1.len() + 1 + k] == f1[k]);
+        assert(t[off + i2.len() + 1 + k] == f2[k]);
+    }
+    assert(f1 =~= f2);
+}"""),
+]
+
+FLOAT_RW = [
+    Rw("R1", r"use fmt::Write;", ""),
+    Rw("R7", r"format!\(\"\{:\.\*\}\", precision, self\.0\)", "f64_fixed(self.0, precision)"),
+    Rw("R5", r"num\.split_once\('\.'\)", "split_once_dot(&num)"),
+    Rw("R5", r"int_str\.to_string\(\)", "str_to_string(int_str)"),
+    Rw("R5", r"num\.clone\(\)", "string_clone(&num)"),
+    Rw("R5", r"int_part\.strip_prefix\('-'\)", "strip_minus(&int_part)"),
+    Rw("R5", r"digits\.len\(\)", "ascii_len(&digits)"),
+    Rw("R5", r"frac_part\.trim_end_matches\('0'\)", "trim_end_zeros(frac_part)"),
+    Rw("R5", r"!frac_trimmed\.is_empty\(\)", "!str_is_empty(frac_trimmed)"),
+    RwFn("R3", r3_index_loops, count=1),
+]
+
 FMT_SIG = [Rw("R7", r"fmt::Formatter<'_>", "Formatter"), Rw("R17", r"fmt::Result", "Result<(), FmtError>")]
 
 UNIT = Unit(
     name="c15_formatters",
     properties=["C15"],
-    prelude=["time", "fmt", "fmtx"],
+    prelude=["time", "fmt", "fmtx", "floatfmt"],
     trusted=[
         "core::fmt: `{}` of an unsigned integer prints dec(x), `{:02}` prints pad2(x); u64::to_string == dec (prelude/fmtx.rs)",
         "R7: write!(f, \"..\") translated piecewise into sink calls (literal text and flags stay visible)",
@@ -79,8 +174,39 @@ UNIT = Unit(
     items=[
         Decl("src/format.rs", "struct", "HumanCount"),
         Decl("src/format.rs", "struct", "FormattedDuration"),
-        Raw(SPEC),
-    ] + LEMMAS + [
+        Decl("src/format.rs", "struct", "HumanFloatCount"),
+        Raw(SPEC), Raw(FLOAT_SPEC),
+    ] + LEMMAS + FLOAT_LEMMAS + [
+        Fn("src/format.rs", "fmt::Display for HumanFloatCount", "fmt", ret="r", sig_rewrites=FMT_SIG, rewrites=FLOAT_RW,
+           ensures=[("C15-human-float",
+                     "r.is_ok() ==> forall|neg: bool, ip: Seq<char>, fp: Seq<char>| "
+                     "#[trigger] fixed_shape(fixed(self.0, prec_of(old(f).precision)), prec_of(old(f).precision), neg, ip, fp) "
+                     "==> final(f).text() == old(f).text() + human_float(neg, ip, fp)")],
+           proofs=[(r"let digits = match", "before", """        proof {
+            let pp = precision as nat;
+            let w = axiom_fixed_shape(self.0, pp);
+            assert forall|neg: bool, ip: Seq<char>, fp: Seq<char>| #[trigger] fixed_shape(fixed(self.0, pp), pp, neg, ip, fp) implies neg == w.0 && ip == w.1 && fp == w.2 by {
+                lemma_shape_unique(fixed(self.0, pp), pp, neg, ip, fp, w.0, w.1, w.2);
+            }
+            // the text before the first '.' is sign + integer part, the text after it the fraction
+            let sg = if w.0 { seq!['-'] } else { Seq::<char>::empty() };
+            reveal_strlit("");
+            lemma_int_part(num@, pp, w.0, w.1, w.2, int_part@, frac_part@);
+            assert(int_part@ == sg + w.1 && frac_part@ == w.2);
+        }"""),
+                   (r"let len = ", "before", "        let ghost pre_loop = f.text();"),
+                   (r"let len = ", "after", """        proof {
+            let pp = precision as nat;
+            let w = axiom_fixed_shape(self.0, pp);
+            lemma_shape_unique(fixed(self.0, pp), pp, w.0, w.1, w.2, w.0, w.1, w.2);
+            emit_is_group3(digits@);
+            assert(digits@ =~= w.1);
+            lemma_ascii_ip(w.1);
+        }""")],
+           loops={0: {"invariant": ["__n0 <= __cs0@.len()", "__cs0@ == digits@", "len == digits@.len()",
+                                    "f.text() == pre_loop + emit(digits@, len as int, __n0 as int)",
+                                    "f.precision == old(f).precision"],
+                      "decreases": "__cs0@.len() - __n0"}}),
         Fn("src/format.rs", "fmt::Display for HumanCount", "fmt", ret="r", sig_rewrites=FMT_SIG,
            rewrites=[Rw("R1", r"use fmt::Write;", ""), Rw("R5", r"self\.0\.to_string\(\)", "u64_to_string(self.0)"),
                      Rw("R5", r"num\.len\(\)", "ascii_len(&num)"), RwFn("R3", r3_index_loops, count=1)],
@@ -88,6 +214,18 @@ UNIT = Unit(
            proofs=[(r"let len = ", "after", "        proof { lemma_dec_digits(self.0 as nat); emit_is_group3(num@); }")],
            loops={0: {"invariant": ["__n0 <= __cs0@.len()", "__cs0@ == num@", "len == num@.len()", "f.text() == old(f).text() + emit(num@, len as int, __n0 as int)"],
                       "decreases": "__cs0@.len() - __n0"}}),
+        Decl("src/format.rs", "struct", "HumanBytes"),
+        Decl("src/format.rs", "struct", "DecimalBytes"),
+        Decl("src/format.rs", "struct", "BinaryBytes"),
+        Fn("src/format.rs", "fmt::Display for HumanBytes", "fmt", ret="r", sig_rewrites=FMT_SIG,
+           rewrites=[Rw("R6", r"NumberPrefix::binary\(self\.0 as f64\)", "np_binary(self.0)"), RwFn("R7", r7_write_macros, count=2)],
+           ensures=[("C15-bytes-format", "r.is_ok() ==> final(f).text() == old(f).text() + bytes_text(np_binary_spec(self.0))")]),
+        Fn("src/format.rs", "fmt::Display for BinaryBytes", "fmt", ret="r", sig_rewrites=FMT_SIG,
+           rewrites=[Rw("R6", r"NumberPrefix::binary\(self\.0 as f64\)", "np_binary(self.0)"), RwFn("R7", r7_write_macros, count=2)],
+           ensures=[("C15-bytes-format", "r.is_ok() ==> final(f).text() == old(f).text() + bytes_text(np_binary_spec(self.0))")]),
+        Fn("src/format.rs", "fmt::Display for DecimalBytes", "fmt", ret="r", sig_rewrites=FMT_SIG,
+           rewrites=[Rw("R6", r"NumberPrefix::decimal\(self\.0 as f64\)", "np_decimal(self.0)"), RwFn("R7", r7_write_macros, count=2)],
+           ensures=[("C15-bytes-format", "r.is_ok() ==> final(f).text() == old(f).text() + bytes_text(np_decimal_spec(self.0))")]),
         Fn("src/format.rs", "fmt::Display for FormattedDuration", "fmt", ret="r", sig_rewrites=FMT_SIG,
            rewrites=[RwFn("R7", r7_write_macros, count=2)],
            requires=[("duration-wf", "self.0.wf()")],
